@@ -129,8 +129,10 @@ func propC11(t *rapid.T) {
 	}
 	fn := rapid.SampledFrom([]string{"FastOr", "HeapOr", "ParOr", "ParHeapOr", "FastAnd", "ParAnd", "HeapXor", "AndAny"}).Draw(t, "fn")
 	workerSet := []int{0, 1, 2, 3, 4, 7, 16, 33}
+	var results []*roaring.Bitmap
 	check := func(name string, got *roaring.Bitmap, want *model.Set) {
 		runtime.GC()
+		results = append(results, got)
 		if d := live.Check(got, want); d != "" {
 			t.Fatalf("%s over %d bitmaps != fold of the binary operation: %s\n  want=%s\n  list: %s", name, len(list), d, want, desc)
 		}
@@ -172,6 +174,39 @@ func propC11(t *rapid.T) {
 		xl.B.AndAny(args()...)
 		check("x.AndAny", xl.B, model.And(xl.Model, or))
 		runtime.KeepAlive(xl)
+	}
+	// results belong to the caller: change the earlier ones (remove a value from every chunk, a whole range), then
+	// compute the same aggregate once more - it is the fold again, not something that remembers the earlier result
+	if fn != "AndAny" && len(results) > 0 && rapid.Bool().Draw(t, "scribbleResults") {
+		for _, r := range results {
+			if r.IsEmpty() {
+				continue
+			}
+			for _, k := range or.Keys16() {
+				base := uint32(k) << 16
+				r.Remove(base + 5)
+				r.Remove(base + 65535)
+				r.RemoveRange(uint64(base)+1000, uint64(base)+1200)
+			}
+		}
+		results = nil
+		switch fn {
+		case "FastOr":
+			check(fn+" (again, after the earlier result was changed)", roaring.FastOr(args()...), or)
+		case "HeapOr":
+			check(fn+" (again, after the earlier result was changed)", roaring.HeapOr(args()...), or)
+		case "ParOr":
+			check(fn+"(1) (again, after the earlier results were changed)", roaring.ParOr(1, args()...), or)
+			check(fn+"(3) (again, after the earlier results were changed)", roaring.ParOr(3, args()...), or)
+		case "ParHeapOr":
+			check(fn+"(2) (again, after the earlier results were changed)", roaring.ParHeapOr(2, args()...), or)
+		case "FastAnd":
+			check(fn+" (again, after the earlier result was changed)", roaring.FastAnd(args()...), and)
+		case "ParAnd":
+			check(fn+"(2) (again, after the earlier results were changed)", roaring.ParAnd(2, args()...), and)
+		case "HeapXor":
+			check(fn+" (again, after the earlier result was changed)", roaring.HeapXor(args()...), xor)
+		}
 	}
 	// the fold does not depend on what was computed before over the same list: a second aggregate of
 	// another kind, and the members themselves, are still what the models say
